@@ -178,3 +178,14 @@ def run(ctx: Context) -> None:
     for m in ("__iter__", "__aiter__"):
         ys = [norm(y.value) for y in own_nodes(bs.methods[m].node) if isinstance(y, ast.Yield)]
         rep.ob("C02.R4", f"shared|ByteStream.{m}|yield", ys == ["self._content"], where(bs.methods[m]), f"ByteStream yields {ys}")
+
+_core_run = run
+
+
+def run(ctx: Context) -> None:  # noqa: F811
+    _core_run(ctx)
+    from . import backend
+
+    ctx.rep.rule('C02.R7', "each real backend's read() returns the bytes of exactly one receive primitive, unmodified (b'' only at end of stream)")
+    backend.read_passthrough(ctx, 'C02.R7')
+    ctx.rep.explanation = (ctx.rep.explanation or '') + " R7 (transport layer): every real backend stream's read() returns the result of one receive primitive unmodified."
